@@ -19,8 +19,9 @@ ASSUMPTIONS = [
     "Inputs change only between clock edges. In a seeded third of the runs the four domains have resets that are pulsed at "
     "arbitrary instants: FFBuffer registers are reset-less, so nothing may change.",
     "A buffer whose direction its port cannot serve must be refused with ValueError when it is constructed.",
-    "Vendor ride-along (a quarter of the runs; iCE40, ECP5, MachXO2, Gowin, Xilinx 7-series / Spartan-6, Altera, QuickLogic): a buffer on a "
-    "hand-made real port is elaborated by the platform's buffer code; a port without pin metadata must be treated like one whose "
+    "Vendor ride-along (a quarter of the runs; iCE40, ECP5, MachXO2, Gowin, Xilinx 7-series / Spartan-6 / Virtex-2 / Spartan-3 / -3E / "
+    "-3A, Altera, QuickLogic; Buffer, FFBuffer, DDRBuffer): a buffer on a hand-made real port is lowered by the platform's buffer "
+    "code and converted to RTLIL; a port without pin metadata must be treated like one whose "
     "metadata has no attributes, and an exception may only come from the platform code itself (a refusal), not from the core layers.",
     "Base-port bits not covered by the composed port are expected to keep their initial values.",
 ]
@@ -156,9 +157,11 @@ def gen_case(seed, tier):
         config["i_domain"] = cfg.choice([None, "di", "do"]) if bdir != "o" else None
         config["o_domain"] = cfg.choice([None, "do", "di"]) if bdir != "i" else None
     config["edges"] = {dn: cfg.choice(["pos", "neg"]) for dn in DOMS}
-    config["vendor"] = ({"platform": cfg.choice(["ice40", "ecp5", "machxo2", "gowin", "xc7", "xc6s", "altera", "quicklogic"]),
+    config["vendor"] = ({"platform": cfg.choice(["ice40", "ecp5", "machxo2", "gowin", "xc7", "xc6s", "xc2v", "xc3s", "xc3se", "xc3sa", "altera",
+                                                  "quicklogic"]),
                          "kind": cfg.choice(["se", "se", "diff"]), "dir": cfg.choice(["i", "o", "io"]), "width": cfg.choice([1, 2, 3]),
-                         "invert": cfg.randrange(8), "buffer": cfg.choice(["Buffer", "FFBuffer"])} if cfg.random() < 0.25 else None)
+                         "invert": cfg.randrange(8), "buffer": cfg.choice(["Buffer", "FFBuffer", "DDRBuffer"])}
+                        if cfg.random() < 0.25 else None)
     # a companion registered output buffer on bits of a base port that the composed port leaves free: two buffers then
     # drive disjoint slices of the same port signals, possibly at the very same clock edge
     config["companion"] = None
@@ -366,6 +369,10 @@ def run_case(case):
             "gowin": (vendor.GowinPlatform, dict(part="GW1NR-LV9QN88PC6/I5", family="GW1NR-9C"), {"toolchain": "Apicula"}),
             "xc7": (vendor.XilinxPlatform, dict(device="xc7a35ti", package="csg324", speed="1L"), {"toolchain": "Vivado"}),
             "xc6s": (vendor.XilinxPlatform, dict(device="xc6slx9", package="tqg144", speed="2"), {"toolchain": "ISE"}),
+            "xc2v": (vendor.XilinxPlatform, dict(device="xc2v40", package="ft256", speed="4"), {}),
+            "xc3s": (vendor.XilinxPlatform, dict(device="xc3s50", package="ft256", speed="4"), {}),
+            "xc3se": (vendor.XilinxPlatform, dict(device="xc3s500e", package="ft256", speed="4"), {}),
+            "xc3sa": (vendor.XilinxPlatform, dict(device="xc3s50a", package="ft256", speed="4"), {}),
             "altera": (vendor.AlteraPlatform, dict(device="5CSEBA6", package="U23", speed="I7"), {}),
             "quicklogic": (vendor.QuicklogicPlatform, dict(device="ql-eos-s3", package="wlcsp"), {}),
         }
@@ -389,7 +396,8 @@ def run_case(case):
             with warnings.catch_warnings():
                 warnings.simplefilter("ignore")
                 try:
-                    Fragment.get(mm, plat_cls(**kw))
+                    from amaranth.back import rtlil as _rtlil
+                    _rtlil.convert(mm, platform=plat_cls(**kw), ports=[])      # (down to the netlist: driver conflicts show only there)
                 except Exception as e:
                     last = traceback.extract_tb(e.__traceback__)[-1].filename
                     return type(e).__name__, last.split("amaranth/")[-1]
